@@ -660,6 +660,12 @@ def quiescent_but_me():
         if t is me:
             continue
         if thread_state(t) == "running":
+            # a thread waiting for a lock that (transitively) the caller holds cannot move either
+            i = t.ident
+            if i in LM.waiting or i in LM.joining:
+                idents, end = LM.chain(i)
+                if end == me.ident:
+                    continue
             return False
     return True
 
@@ -716,6 +722,35 @@ def advance(horizon_delta=None, until=None, max_fires=10000):
 
 def vnow():
     return CLOCK.now
+
+
+def pass_time(dt, timeout=10.0):
+    """Virtual time passes while the calling (actor) thread is inside user / delegate code: like advance(), timers due
+    in the interval fire in order and the threads they wake run until nothing but the caller can move - but callable from
+    inside an actor."""
+    if MODE[0] != "vt":
+        return 0
+    with CV:
+        horizon = CLOCK.now + dt
+    fired = 0
+    while True:
+        wait_for(quiescent_but_me, timeout=timeout)
+        if LM.deadlocks:
+            return fired
+        with CV:
+            cands = [w for w in CLOCK.waiters if not w.woken and w.deadline is not None and w.deadline <= horizon]
+            if not cands:
+                if CLOCK.now < horizon:
+                    CLOCK.now = horizon
+                return fired
+            w = min(cands, key=lambda w: w.deadline)
+            if CLOCK.now < w.deadline:
+                CLOCK.now = w.deadline
+            w.woken = True
+            w.timed_out = True
+            fired += 1
+            CLOCK.timers_fired += 1
+            CV.notify_all()
 
 
 def burn(dt):
